@@ -19,6 +19,10 @@ import (
 	"golang.org/x/tools/go/ssa"
 )
 
+var c01SharedObj = new(int)
+
+var c01Rand int64
+
 var harnessFuncCache = map[*ssa.Program]map[string]*ssa.Function{}
 
 func harnessFunc(i *interpreter, name string) *ssa.Function {
@@ -42,8 +46,7 @@ func harnessFunc(i *interpreter, name string) *ssa.Function {
 }
 
 func redirectToHarness(ext, harness string) {
-	var self externalFn
-	self = func(fr *frame, args []value) value {
+	self := func(fr *frame, args []value) value {
 		h := harnessFunc(fr.i, harness)
 		if h != nil {
 			stub(ext + " (cut: model function " + harness + " of the harness)")
@@ -56,8 +59,7 @@ func redirectToHarness(ext, harness string) {
 			}
 			panic(pathAbort{"unsupported", "no model for external function " + fn.String()})
 		}
-		delete(externals, ext)
-		defer func() { externals[ext] = self }()
+		skipExternalOnce = fn // run the real body (the externals lookup is cached per function)
 		return callSSA(fr.i, fr.caller, token.NoPos, fn, args, nil)
 	}
 	externals[ext] = self
@@ -69,6 +71,16 @@ func init() {
 		// C01.codec: the hash-index builder/reader behind the value codec (C04 decides the index itself)
 		"(*" + repo + "compactindexsized.Builder).Insert": "c01Model_BuilderInsert",
 		"(*" + repo + "compactindexsized.DB).Lookup":      "c01Model_DBLookup",
+		// C01.e2e: the hash-index builder/reader objects behind the real index writers/readers
+		repo + "compactindexsized.NewBuilderSized":          "c01Model_NewBuilderSized",
+		"(*" + repo + "compactindexsized.Builder).Metadata": "c01Model_BuilderMetadata",
+		"(*" + repo + "compactindexsized.Builder).Seal":     "c01Model_BuilderSeal",
+		"(*" + repo + "compactindexsized.Builder).Close":    "c01Model_BuilderClose",
+		repo + "compactindexsized.Open":                     "c01Model_compactindexOpen",
+		repo + "iplddecoders.DecodeEpoch":                   "c01Model_DecodeEpoch",
+		// C01.offsets: the sealing closures run sequentially in spawn order (interleavings: C01.seal)
+		"(*golang.org/x/sync/errgroup.Group).Go":   "c01Model_errgroupGo",
+		"(*golang.org/x/sync/errgroup.Group).Wait": "c01Model_errgroupWait",
 		// C01.read: the server's object cache
 		"(*github.com/allegro/bigcache/v3.BigCache).Get": "c01Model_bigcacheGet",
 		"(*github.com/allegro/bigcache/v3.BigCache).Set": "c01Model_bigcacheSet",
@@ -106,6 +118,13 @@ func init() {
 		redirectToHarness(ext, h)
 	}
 
+	// verifC01YieldShared(): a yield point on one shared pseudo-object (refinement of the schedule
+	// granularity at accesses to a variable shared without synchronisation)
+	verifIntrinsics["verifC01YieldShared"] = func(fr *frame, args []value) value {
+		sched.yield(curG(fr), "shared variable access", c01SharedObj)
+		return nil
+	}
+
 	e := externals
 	if e["github.com/dustin/go-humanize.Comma"] == nil {
 		e["github.com/dustin/go-humanize.Comma"] = func(fr *frame, args []value) value {
@@ -135,6 +154,19 @@ func init() {
 			acc = andV(acc, equalsV(types.Typ[types.Uint8], b, uint8(0)))
 		}
 		return acc
+	}
+	if e["(time.Time).Format"] == nil {
+		e["(time.Time).Format"] = func(fr *frame, args []value) value {
+			stub("time.Time.Format (model: constant text; temp-dir names only)")
+			return "20060102-150405.000000000"
+		}
+	}
+	if e["math/rand.Int63"] == nil {
+		e["math/rand.Int63"] = func(fr *frame, args []value) value {
+			stub("math/rand.Int63 (model: successive integers; temp-dir names only)")
+			c01Rand++
+			return c01Rand
+		}
 	}
 	if e["path/filepath.Join"] == nil {
 		e["path/filepath.Join"] = func(fr *frame, args []value) value {
